@@ -39,7 +39,10 @@ class LifecycleCheck(dplib.DataPathCheck):
             i = by_scen[v["scen"]]
             sc, tr = self.scen[i], self.traces[i]
             ev = next((e for e in tr if e["n"] == v["at"]), {})
-            rec = {"invariant": v["inv"], "engine": sc["engine"], "features": sc.get("features", []),
+            derived = []
+            if any(e["ev"] == "Call" and e["call"] == "Start" and e.get("reported") == "Recovering" for e in tr):
+                derived.append("start-while-recovering")
+            rec = {"invariant": v["inv"], "engine": sc["engine"], "features": sorted(set(sc.get("features", [])) | set(derived)),
                    "event": ev.get("ev"), "what": v["what"], "scenario": sc["id"], "at": v["at"]}
             self.verdict.add(rec, lambda sc=sc, tr=tr, rec=rec: vlib.write_replay(
                 self.prop, sc["id"], sc, [{k: x for k, x in e.items() if k != "goroutines"} for e in tr
